@@ -998,7 +998,7 @@ fn corpus() -> Vec<Fixed> {
                 Step::OpenAt(1, "x := ;\n".into()),
             ],
         },
-        // KNOWN FINDING C14-uri-scheme-shares-path-key: handled by `scheme_probe`
+        // the repaired defect C14-uri-scheme-shares-path-key (regression case): handled by `scheme_probe`
         Fixed { name: "uri-scheme-probe", text: "", disk: None, steps: vec![] },
     ]
 }
@@ -1597,13 +1597,13 @@ fn attempt_case(bin: &str, seed: u64, n: u64, max_notes: u64) -> CaseOut {
 }
 
 
-/// Replay of the known finding C14-uri-scheme-shares-path-key on the real server: two documents
-/// whose URIs differ in the scheme (or only in the query) but have the same absolute path are
+/// Regression case of the repaired defect C14-uri-scheme-shares-path-key: two documents whose URIs
+/// differ in the scheme, the query or the fragment but have the same absolute path used to be
 /// keyed by the path alone (`state/path.rs` `uri_to_path` -> `Url::to_file_path`, which does not
-/// look at the scheme), so they share one analysed text: the answers about the `file:` document
-/// are computed from the text of the other one.  The two texts have the same byte layout, so the
-/// finding is classified exactly: the answers for the `file:` URI equal those of a fresh server
-/// that got the OTHER text under that URI.
+/// look at the scheme) and shared one analysed text.  Required now, for every variant: each of the
+/// two open documents holds the text it was opened with AND is answered from it — the answers
+/// about either URI equal those of a fresh server that got only that document.  (The two texts
+/// have the same byte layout, so the old behaviour is named exactly when it comes back.)
 fn scheme_probe(bin: &str, lines: &mut Vec<String>, stats: &mut Vec<String>) -> Result<(), String> {
     const A: &str = "PROGRAM Alpha\nVAR x : INT; END_VAR\nx := 1;\nEND_PROGRAM\n";
     const B: &str = "PROGRAM Bravo\nVAR y : INT; END_VAR\ny := q;\nEND_PROGRAM\n";
@@ -1622,15 +1622,19 @@ fn scheme_probe(bin: &str, lines: &mut Vec<String>, stats: &mut Vec<String>) -> 
             json!({"textDocument": {"uri": uri, "languageId": "structured-text", "version": 1, "text": text}}),
         )
     };
-    let fresh = |text: &str| -> Result<Value, String> {
-        let mut f = lsp::Lsp::start(bin, true, None)?;
-        let res = open(&mut f, FILE, text).and_then(|_| ask(&mut f, FILE));
-        f.stop();
-        res
+    // the same URI in every answer, so that answers about different URIs can be compared
+    let anon = |v: &Value, uri: &str| -> Value {
+        serde_json::from_str(&v.to_string().replace(uri, "URI")).unwrap_or(Value::Null)
     };
-    let want_a = fresh(A)?;
-    let want_b = fresh(B)?;
-    if want_a == want_b {
+    let fresh = |uri: &str, text: &str| -> Result<Value, String> {
+        let mut f = lsp::Lsp::start(bin, true, None)?;
+        let res = open(&mut f, uri, text).and_then(|_| ask(&mut f, uri));
+        f.stop();
+        res.map(|v| anon(&v, uri))
+    };
+    let want_a = fresh(FILE, A)?;
+    let stolen = fresh(FILE, B)?;
+    if want_a == stolen {
         lines.push("# oracle uri-scheme FAIL the probe texts are not told apart by the answers".into());
         return Ok(());
     }
@@ -1638,27 +1642,41 @@ fn scheme_probe(bin: &str, lines: &mut Vec<String>, stats: &mut Vec<String>) -> 
         ("git-scheme", "git:/c14/probe.st?ref=HEAD"),
         ("notebook-cell", "vscode-notebook-cell:/c14/probe.st#W0sZmlsZQ%3D%3D"),
         ("file-with-query", "file:///c14/probe.st?revision=2"),
+        ("file-with-fragment", "file:///c14/probe.st#L3"),
         ("untitled", "untitled:/c14/probe.st"),
     ] {
-        let mut l = lsp::Lsp::start(bin, true, None)?;
-        let res = (|| -> Result<(Option<(String, i64)>, Option<(String, i64)>, Value), String> {
-            open(&mut l, FILE, A)?;
-            open(&mut l, other, B)?;
-            let ta = doc_state(&mut l, FILE)?;
-            let tb = doc_state(&mut l, other)?;
-            Ok((ta, tb, ask(&mut l, FILE)?))
-        })();
-        l.stop();
-        let (ta, tb, got) = res?;
-        stats.push("uri-scheme-probes:1".into());
-        if ta.as_ref().map(|x| x.0.as_str()) != Some(A) || tb.as_ref().map(|x| x.0.as_str()) != Some(B) {
-            lines.push(format!("# oracle uri-scheme FAIL {name}: the documents do not hold the texts they were opened with"));
-        } else if got == want_a {
-            lines.push(format!("# oracle uri-scheme ok {name}"));
-        } else if got == want_b {
-            lines.push(format!("# oracle uri-scheme KNOWN uri-scheme {name}: answers about {FILE} are computed from the text of {other}"));
-        } else {
-            lines.push(format!("# oracle uri-scheme FAIL {name}: got={} want={}", short(&got), short(&want_a)));
+        let want_b = fresh(other, B)?;
+        // both orders: the document opened last used to win
+        for file_first in [true, false] {
+            let mut l = lsp::Lsp::start(bin, true, None)?;
+            let res = (|| -> Result<(Option<(String, i64)>, Option<(String, i64)>, Value, Value), String> {
+                if file_first {
+                    open(&mut l, FILE, A)?;
+                    open(&mut l, other, B)?;
+                } else {
+                    open(&mut l, other, B)?;
+                    open(&mut l, FILE, A)?;
+                }
+                let ta = doc_state(&mut l, FILE)?;
+                let tb = doc_state(&mut l, other)?;
+                Ok((ta, tb, ask(&mut l, FILE)?, ask(&mut l, other)?))
+            })();
+            l.stop();
+            let (ta, tb, got_a, got_b) = res?;
+            let (got_a, got_b) = (anon(&got_a, FILE), anon(&got_b, other));
+            stats.push("uri-scheme-probes:1".into());
+            let order = if file_first { "file-first" } else { "file-last" };
+            if ta.as_ref().map(|x| x.0.as_str()) != Some(A) || tb.as_ref().map(|x| x.0.as_str()) != Some(B) {
+                lines.push(format!("# oracle uri-scheme FAIL {name} {order}: the documents do not hold the texts they were opened with"));
+            } else if got_a == want_a && got_b == want_b {
+                lines.push(format!("# oracle uri-scheme ok {name} {order}"));
+            } else if got_a == stolen {
+                lines.push(format!("# oracle uri-scheme FAIL {name} {order}: answers about {FILE} are computed from the text of {other} (the two URIs share one source key)"));
+            } else if got_a != want_a {
+                lines.push(format!("# oracle uri-scheme FAIL {name} {order}: about {FILE} got={} want={}", short(&got_a), short(&want_a)));
+            } else {
+                lines.push(format!("# oracle uri-scheme FAIL {name} {order}: about {other} got={} want={}", short(&got_b), short(&want_b)));
+            }
         }
     }
     Ok(())
